@@ -23,7 +23,7 @@ CLAIMED["C02"] = ("Deductive proof of functional contracts (success clause with 
   "Partial: comparison (eq/ne: equality of booleans, marks, arrays is not implemented by the library), copy, array/string/dict creation, maxlength, type/cvx, mark operators and the font/resource registries have safety and invariant contracts only; mul's overflow clause is claimed for the multiplicands -1, 0, 1; put/putinterval clauses assume the array is not the operand stack's own backing array (no heap-wide separation invariant); bitwise and/or are uninterpreted (the same Go operator on both sides); float arithmetic as real arithmetic (see evidence.not_covered). Trusted: govc, go/ssa, solvers.",
   "contract-based deductive verification: weakest-precondition style VCs over go/ssa of /repo, discharged by z3 4.8.12 / z3 5.1.0 / cvc5 1.0",
   "DESIGN.md A.4 C02")
-CLAIMED["C03"] = ("Deductive proof of control-flow contracts: loop-exit conditions of for and repeat (a loop operator leaves its loop only when the PLRM termination test holds or the body signalled exit), exit never escapes a loop operator, the tail element of a procedure is dispatched in deferred mode unless it was obtained by name lookup, if with a false condition executes nothing, Execute converts stray exit/stop.",
+CLAIMED["C03"] = ("Deductive proof of control-flow contracts: loop-exit conditions of for and repeat (a loop operator leaves its loop only when the PLRM termination test holds or the body signalled exit), exit never escapes a loop operator, executing a literal object pushes it, if/ifelse run the operand selected by the boolean (observable when the operands are literals), the tail element of a procedure is dispatched in deferred mode unless it was obtained by name lookup, if with a false condition executes nothing, Execute converts stray exit/stop.",
   "Partial: what a body does is abstract (executeOne is used through its contract); iteration counts, forall operands, bind, name-lookup order and ifelse branch selection are not yet under contract (see evidence.not_covered). Trusted: govc, go/ssa, solvers.",
   "contract-based deductive verification: weakest-precondition style VCs over go/ssa of /repo, discharged by z3 4.8.12 / z3 5.1.0 / cvc5 1.0",
   "DESIGN.md §3 C03")
